@@ -17,19 +17,19 @@ import (
 )
 
 type C10Input struct {
-	N       int      `json:"n"` // machine states incl. Exception (last)
-	Sync    bool     `json:"sync_schema"`
-	Shallow bool     `json:"shallow"`
-	Hello   bool     `json:"hello"` // lastPushData built as RemoteHello does
-	Tracked []int    `json:"tracked"`
-	BySkip  bool     `json:"by_skip"` // express the subset as a skip list
-	AllowRev bool    `json:"allow_rev,omitempty"` // give the allow list in reverse order
-	T1      []uint64 `json:"t1"`
-	T2      []uint64 `json:"t2"`
-	Q1      uint64   `json:"q1"`
-	Q2      uint64   `json:"q2"`
-	M1      uint32   `json:"m1"`
-	M2      uint32   `json:"m2"`
+	N        int      `json:"n"` // machine states incl. Exception (last)
+	Sync     bool     `json:"sync_schema"`
+	Shallow  bool     `json:"shallow"`
+	Hello    bool     `json:"hello"` // lastPushData built as RemoteHello does
+	Tracked  []int    `json:"tracked"`
+	BySkip   bool     `json:"by_skip"`             // express the subset as a skip list
+	AllowRev bool     `json:"allow_rev,omitempty"` // give the allow list in reverse order
+	T1       []uint64 `json:"t1"`
+	T2       []uint64 `json:"t2"`
+	Q1       uint64   `json:"q1"`
+	Q2       uint64   `json:"q2"`
+	M1       uint32   `json:"m1"`
+	M2       uint32   `json:"m2"`
 	// Mirror: nil = the faithful copy of snapshot 1
 	Mirror []uint64 `json:"mirror,omitempty"`
 	MQ     uint64   `json:"mq"`
